@@ -133,3 +133,37 @@ fn p_rewrap() {
     }
     std::mem::forget(item);
 }
+
+#[kani::proof]
+#[kani::unwind(34)]
+fn p_fault_small() {
+    let a = Point::new(any_f64(), any_f64());
+    let k: u32 = kani::any();
+    kani::assume(k <= 40);
+    let persistent: bool = kani::any();
+    faults_reset();
+    let mut shp = FaultFile::<160>::new(k, persistent);
+    {
+        let mut w = ShapeWriter::new(&mut shp);
+        let f0 = faults_fired();
+        let r = w.write_shape(&a);
+        if faults_fired() > f0 {
+            assert!(r.is_err());
+        } else {
+            assert!(r.is_ok());
+        }
+        let ok = r.is_ok();
+        std::mem::forget(r);
+        if ok {
+            let f0 = faults_fired();
+            let r = w.finalize();
+            if faults_fired() > f0 {
+                assert!(r.is_err());
+            } else {
+                assert!(r.is_ok());
+            }
+            std::mem::forget(r);
+        }
+    }
+    kani::cover!(shp.fired);
+}
